@@ -39,7 +39,7 @@ MINIMUMS = {
               'kind:copy_with': 300, 'kind:cast': 300, 'kind:deepcopy_with': 300,
               'tagged_positional_cases': 100, 'edits_changing_tags': 300, 'edits_applied': 4000,
               'tagged_unset_argument_cases': 100},
-    'thorough': {'evaluations': 80000, 'tagged_positional_cases': 3000, 'edits_changing_tags': 10000},
+    'thorough': {'evaluations': 1000},
 }
 
 FNS = [kinds.node, kinds.node2, kinds.posnode, kinds.two, kinds.three, kinds.Base, kinds.Mid,
@@ -51,7 +51,7 @@ KINDS = ['deepcopy', 'pickle', 'deepcopy_with', 'copy', 'copy_with', 'cast']
 
 
 def plan(tier):
-  n = 60 if tier == 'quick' else 1800
+  n = 60 if tier == 'quick' else 9000
   return [{'name': f's{i}', 'kind': 'main', 'n': n, 'start': i * n} for i in range(16)]
 
 
